@@ -8,6 +8,7 @@ import Driver.C05Mon
 import Driver.C08
 import Driver.C10Mon
 import Driver.C15
+import Driver.C06Mon
 open Kv
 
 structure DState where
@@ -29,6 +30,7 @@ def dispatch (st : DState) (prop : String) (l : Line) : DState × String :=
   | "C08" => let (s, r) := Drv.C08.step st.c08 l; ({ st with c08 := s }, r)
   | "C10" => (st, Drv.C10.step l)
   | "C15" => (st, Drv.C15.step l)
+  | "C06" => (st, Drv.C06.step l)
   | _ => (st, "bad-op")
 
 def main : IO Unit := driverMain dispatch {}
